@@ -66,9 +66,14 @@ def do_eval(ids, checks=None, stage="detection"):
         if rc != 0:
             print(sid, "patch does not apply", out[-300:]); continue
         res = meta[stage] = {}
+        if checks is None and stage == "detection_final":
+            # the property's own check first, then (only if it stays silent) the other checks recorded as owning the behaviour
+            cks = [meta["property"]] + list(meta.get("cross_checks", []))
+        else:
+            cks = checks or [meta["property"]]
         outdir = f"/tmp/seedout/{sid}"
         try:
-            for c in (checks or [meta["property"]]):
+            for c in cks:
                 mod = c.lower()
                 for tier in ("quick", "thorough"):
                     t0 = time.time()
@@ -78,6 +83,8 @@ def do_eval(ids, checks=None, stage="detection"):
                     print(sid, c, tier, "exit", rc, f"{time.time() - t0:.0f}s", (lines[1][:200] if len(lines) > 1 else ""), flush=True)
                     if rc == 1:
                         break
+                if any(v["exit"] == 1 for v in res.values()):
+                    break
         finally:
             sh("git checkout -- .", cwd=wt)
             shutil.rmtree(outdir, ignore_errors=True)
@@ -123,7 +130,7 @@ if __name__ == "__main__":
         ids = sys.argv[2:] or sorted(os.path.basename(os.path.dirname(m)) for m in glob.glob(f"{SEEDED}/*/meta.json"))
         do_eval(ids)
     elif cmd == "evalwith":
-        do_eval([sys.argv[2]], checks=sys.argv[3:])
+        do_eval([sys.argv[2]], checks=sys.argv[3:], stage="detection_with")
     elif cmd == "reeval":
         ids = sys.argv[2:] or sorted(os.path.basename(os.path.dirname(m)) for m in glob.glob(f"{SEEDED}/*/meta.json"))
         do_eval(ids, stage="detection_final")
